@@ -15,4 +15,6 @@ for p in u.proofs:
     for r in nf[:12]:
         sl = r.get('sourceLocation', {})
         print('   FAIL', r['property'], '|', r['description'][:150], '|', sl.get('file'), sl.get('line'))
-    if p.status == 'UNDECIDED': print(p.log[-1500:])
+    if p.status == 'UNDECIDED':
+        print(p.log[-600:])
+        if 'goto-cc failed' in p.reason: break
